@@ -540,3 +540,141 @@ func runGateCase(seed int64, tier string, idx int, dIdx, vIdx, fIdx int) vp.Case
 	res.Nontrivial = reachedGate || !strings.HasPrefix(fs, "index:")
 	return res
 }
+
+// ---------------------------------------------------------------------------
+// processors: the same gate through registry.InstallProcessor, with the real
+// WASM fixture of the repository as the artifact (so that the install-time
+// validation hook can pass) or garbage bytes.
+
+const (
+	procName    = "chaos-processor"
+	procVersion = "1.3.5"
+)
+
+var procCells = []struct {
+	Digest   string
+	Verifier verifierMode
+	Policy   int
+	Garbage  bool
+}{
+	{"match", vAccept, 0, false},
+	{"mismatch-bitflip", vAccept, 0, false},
+	{"match", vReject, 0, false},
+	{"match", vUnsigned, 0, false},
+	{"match", vError, 0, false},
+	{"match", vReject, 4, false},
+	{"match", vAccept, 0, true},
+	{"malformed-nonhex", vAccept, 0, false},
+	{"match", vReject, 2, false},
+}
+
+func runProcessorCase(seed int64, tier string, idx, k int) vp.CaseResult {
+	r := rand.New(rand.NewSource(seed*1_000_000 + int64(idx)))
+	res := vp.CaseResult{Stats: map[string]int64{}, Sets: map[string][]string{}}
+	pc := procCells[k%len(procCells)]
+	repo := os.Getenv("VERIF_REPO")
+	if repo == "" {
+		repo = "/repo"
+	}
+	wasm, err := os.ReadFile(filepath.Join(repo, "pkg/plugin/processor/standalone/test/wasm_processors/chaos/processor.wasm"))
+	if err != nil {
+		res.Inconclusive = "WASM fixture not readable: " + err.Error()
+		return res
+	}
+	if pc.Garbage {
+		wasm = []byte("\x00asm-this-is-not-a-module")
+	}
+	archive := buildTarGz([]tent{{Name: "processor.wasm", Type: '0', Data: wasm, Mode: 0o644}}, tarOpts{})
+	g := newGateRig(r)
+	defer g.Close()
+	sb, err := newSandbox("P")
+	if err != nil {
+		res.Inconclusive = "sandbox: " + err.Error()
+		return res
+	}
+	defer sb.Close()
+	procDir := filepath.Join(sb.Root, "procs")
+	os.MkdirAll(procDir, 0o755)
+	declared := declaredDigest(pc.Digest, archive, r)
+	g.srv.set("/p/artifact.tar.gz", archive, fOK)
+	g.srv.set("/p/sig", []byte(`{"scripted":true}`), fOK)
+	a := artifactSpec{Name: connName, Version: connVersion, URL: g.srv.URL("/none"), SHA256: sha256hex(nil), Size: 1, SigURL: g.srv.URL("/none"), IndexVer: 5,
+		Proc: &procSpec{Name: procName, Version: procVersion, URL: g.srv.URL("/p/artifact.tar.gz"), SHA256: declared, Size: int64(len(archive)), SigURL: g.srv.URL("/p/sig")}}
+	raw, err := g.kr.signEnvelope(buildPayload(a), "root")
+	if err != nil {
+		res.Inconclusive = "sign: " + err.Error()
+		return res
+	}
+	g.srv.set("/index.json", raw, fOK)
+	pol := policyCtxs[pc.Policy]
+	sv := &scriptedVerifier{mode: pc.Verifier}
+	final := registry.ProcessorFileName(procName, procVersion)
+	priv := func(rel string) bool { return under(rel, "procs/.registry") || rel == "procs/"+final }
+	before := takeSnapshot(sb.Root, priv)
+	_, ierr := registry.InstallProcessor(context.Background(), registry.InstallOptions{
+		Name: procName, ProcessorsPath: procDir, IndexURL: g.srv.URL("/index.json"),
+		IndexVerifier:    &registry.TrustedVerifier{Anchors: g.kr.anchors(), StatePath: registry.IndexStatePath(procDir), LockTimeout: 10 * time.Second},
+		ArtifactVerifier: sv, RunningConduitVersion: "0.14.0", RunningProtocolVersion: "1.0.0", InstalledBy: "c19", LockTimeout: 10 * time.Second,
+		AllowUnsigned: pol.Allow, OperatorAllowUnsigned: pol.Operator, TTY: pol.TTY, CIEnv: pol.CIEnv, IsMCP: pol.IsMCP, EnvVarSet: pol.EnvVarSet, TypedConfirmation: pol.TypedConfirmed,
+	})
+	after := takeSnapshot(sb.Root, priv)
+	var newFiles []string
+	ents, _ := os.ReadDir(procDir)
+	for _, e := range ents {
+		if e.Name() != ".registry" {
+			newFiles = append(newFiles, e.Name())
+		}
+	}
+	installed := len(newFiles) > 0
+	calls := sv.log()
+	accepted := false
+	for _, c := range calls {
+		accepted = accepted || c.Returned == string(vAccept)
+	}
+	digestOK := digestDenotes(declared, archive)
+	cell := map[string]any{"index": idx, "monitor": "B(processor)", "digest_class": pc.Digest, "verifier": pc.Verifier, "policy": pol.Name, "garbage_wasm": pc.Garbage, "install_error": fmt.Sprint(ierr)}
+	mk := func(class, id, detail string, wit any) vp.Violation {
+		return vp.Violation{Property: "C19", Class: class, Identity: "C19/" + class + "/" + id, Detail: detail, Case: cell, Witness: wit}
+	}
+	declHex, declOK := parseDeclared(declared)
+	for _, c := range calls {
+		if !declOK || c.Digest != declHex {
+			res.Violations = append(res.Violations, mk("verify-before-digest-check", "InstallProcessor/VerifyArtifact-called-with-digest-not-matching-index",
+				"VerifyArtifact was invoked with a digest the index does not declare", calls))
+			break
+		}
+	}
+	if installed && !digestOK {
+		res.Violations = append(res.Violations, mk("install-with-digest-mismatch", "InstallProcessor/digest-class="+pc.Digest, fmt.Sprintf("%v appeared in the processors directory although the digest does not match", newFiles), newFiles))
+	}
+	if installed && !accepted && !(pol.Allow && pol.Operator) {
+		res.Violations = append(res.Violations, mk("install-without-verification", "InstallProcessor/verifier="+string(pc.Verifier), fmt.Sprintf("%v appeared in the processors directory although the verifier did not accept and unsigned installs were not allowed", newFiles), calls))
+	}
+	for _, n := range newFiles {
+		if n != final {
+			res.Violations = append(res.Violations, mk("stray-file-in-install-dir", "InstallProcessor/unexpected-entry", "unexpected entry "+n+" in the processors directory", newFiles))
+		} else if got, _ := os.ReadFile(filepath.Join(procDir, n)); !bytes.Equal(got, wasm) {
+			res.Violations = append(res.Violations, mk("installed-bytes-differ", "InstallProcessor/final-artifact-content", "installed processor bytes differ from the verified archive's module", nil))
+		}
+	}
+	if ch := diffOutside(before, after, priv, func(rel string) bool { return rel == "." || rel == "procs" }); len(ch) > 0 {
+		res.Violations = append(res.Violations, mk("extract-escape", "InstallProcessor/"+ch[0].Kind+"-outside-install-dir", "InstallProcessor changed paths outside its private area", ch))
+	}
+	res.Stats["B_gate_cells"]++
+	res.Stats["B_processor_cells"]++
+	res.Stats["B_verifier_calls"] += int64(len(calls))
+	res.Stats["B_files_snapshotted"] += int64(len(before.Nodes) + len(after.Nodes))
+	outcome := "refused:" + errCode(ierr)
+	if installed {
+		outcome = "installed"
+		res.Stats["B_installed"]++
+		res.Stats["B_processor_installed"]++
+	} else {
+		res.Stats["B_refused"]++
+	}
+	res.Sets["B_outcomes"] = []string{"processor:" + outcome}
+	res.Sig = fmt.Sprintf("B/processor/%s/%s/%s/garbage=%v→%s", pc.Digest, pc.Verifier, pol.Name, pc.Garbage, outcome)
+	res.Nontrivial = true
+	res.Sample = map[string]any{"monitor": "B(processor)", "cell": cell, "outcome": outcome, "verifier_calls": calls}
+	return res
+}
